@@ -8,8 +8,9 @@
       [TInv o P off ws]  (Spec/TailBitmapInv.v)    the invariant of DESIGN section 6 for the exported fields;
       [tb_end off ws := off + 64*len(ws)]          the end of the stored words.
     No bound on the length of the history, on the number of words or on the indices: arithmetic is
-    unbounded [Z] (size hypothesis of DESIGN section 3: Go's int64 agrees while |o|, |idx| stay far below
-    2^63, which no allocatable history can leave). *)
+    unbounded [Z].  That Go's int64 arithmetic agrees is a theorem too (C15_int64_agrees, at the end of
+    this file: any int64 offset, indices away from the last word of the int64 range), and the one place
+    where it does not is exhibited (C15_int64_top_word_refuted). *)
 From Coq Require Import ZArith List Bool Lia.
 From Low Require Import Lib.Bits Lib.BitSeq Model.TailBitmap Spec.TailBitmapSpec Spec.TailBitmapInv
   Spec.TailBitmapObs Proofs.TailBitmapProofs Proofs.TailBitmapHist Proofs.TailBitmapChecker
